@@ -77,22 +77,24 @@ class Run:
 
     # ---- trace validation ------------------------------------------------------------------------
     CHUNK = 50000        # trace lines per TLC run (the whole file is deserialised into TLC values: memory, not time, is the limit)
+    CHUNK_BYTES = 40 * 1024 * 1024
     def validate(self, fam_or_module, trace_paths, timeout=1800, heap="8g", env=None, workers=None):
         """concatenate the traces, let TLC validate every line; returns list of (event, labels).  Long traces are validated in chunks."""
         total = 0
+        nbytes = sum(os.path.getsize(tp) for tp in trace_paths)
         for tp in trace_paths:
             with open(tp) as f: total += sum(1 for line in f if line.strip())
-        if total > self.CHUNK:
-            chunks, cur, n = [], None, 0
+        if total > self.CHUNK or nbytes > self.CHUNK_BYTES:
+            chunks, cur, n, nb = [], None, 0, 0
             base = os.path.join(vlib.scratch(), "chunk_%d_" % len(self.mc_runs))
             for tp in trace_paths:
                 with open(tp) as f:
                     for line in f:
                         if not line.strip(): continue
-                        if cur is None or n >= self.CHUNK:
+                        if cur is None or n >= self.CHUNK or nb >= self.CHUNK_BYTES:
                             if cur: cur.close()
-                            chunks.append(base + "%d.ndjson" % len(chunks)); cur = open(chunks[-1], "w"); n = 0
-                        cur.write(line if line.endswith("\n") else line + "\n"); n += 1
+                            chunks.append(base + "%d.ndjson" % len(chunks)); cur = open(chunks[-1], "w"); n = 0; nb = 0
+                        cur.write(line if line.endswith("\n") else line + "\n"); n += 1; nb += len(line)
             if cur: cur.close()
             res = []
             ntr = self.traces
